@@ -89,7 +89,7 @@ def gen_case(rng):
         upd = {}
         if et == "arrival":
             upd = {"connected_charging_station": rng.choice(list(css)), "estimated_time_of_departure": scen.iso(st + dt * rng.randint(1, 6)),
-                   "desired_soc": rng.choice([0.8, 1, 0.3]), "soc_delta": -rng.choice([0.1, 0.3, 0.02, 0.6, 0.2])}
+                   "desired_soc": rng.choice([0.8, 1, 0.3]), "soc_delta": -rng.choice([0.1, 0.3, 0.02, 0.6, 0.2, 1.2])}
             if rng.random() < 0.05:
                 del upd["soc_delta"]
             r_ = rng.random()
@@ -199,7 +199,50 @@ class EventUnit(corr.Unit):
                     name = C.ERRNAMES.get(type(e), "GenericErr")
                     obs.append(self.observe(strat, name))
                     break
-        return {"init": init, "events": evl, "obs": obs, "t0": us(start), "delta": interval // US}
+        return {"init": init, "events": evl, "obs": obs, "t0": us(start), "delta": interval // US, "parse": self.parse_fidelity(case)}
+
+    @staticmethod
+    def parse_fidelity(case):
+        """the event readers (VehicleEvent / GridOperatorSignal constructors) hand the values of the input on unchanged: numbers as
+        numbers, times as times, None as None.  The model's event list is taken from the parsed objects, so this closes the gap
+        between the input file and the model (round-3 seed C08-s8).  Plain floats, no strategy involved."""
+        import copy
+        import warnings
+        from spice_ev import events as E_
+        from spice_ev import util as U_
+        bad = []
+        with warnings.catch_warnings():
+            warnings.simplefilter("ignore")
+            for raw in case["events"].get("vehicle_events", []):
+                try:
+                    e = E_.VehicleEvent(copy.deepcopy(raw))
+                except Exception as ex:  # noqa
+                    bad.append("vehicle event %s: constructor raised %r" % (raw, ex))
+                    continue
+                want = {}
+                for k, v in raw.get("update", {}).items():
+                    if k in ("estimated_time_of_arrival", "estimated_time_of_departure"):
+                        want[k] = None if v is None else U_.datetime_from_isoformat(v)
+                    elif k in ("soc_delta", "desired_soc", "schedule"):
+                        want[k] = None if v is None else float(v)
+                    else:
+                        want[k] = v
+                if dict(e.update) != want or e.vehicle_id != raw["vehicle_id"] or e.event_type != raw["event_type"] \
+                        or e.start_time != U_.datetime_from_isoformat(raw["start_time"]):
+                    bad.append("vehicle event %s parsed as %s %s %s %s" % (raw, e.vehicle_id, e.event_type, e.start_time, dict(e.update)))
+            for raw in case["events"].get("grid_operator_signals", []):
+                try:
+                    e = E_.GridOperatorSignal(copy.deepcopy(raw))
+                except Exception as ex:  # noqa
+                    bad.append("signal %s: constructor raised %r" % (raw, ex))
+                    continue
+                for k in ("max_power", "target", "window", "cost"):
+                    got, w_ = getattr(e, k, None), raw.get(k)
+                    if got != w_:
+                        bad.append("signal %s: %s parsed as %r" % (raw, k, got))
+                if e.grid_connector_id != raw["grid_connector_id"] or e.start_time != U_.datetime_from_isoformat(raw["start_time"]):
+                    bad.append("signal %s parsed with connector %s start %s" % (raw, e.grid_connector_id, e.start_time))
+        return bad[:3]
 
     # ---- Coq
     @staticmethod
@@ -258,7 +301,10 @@ class EventUnit(corr.Unit):
 
     # ---- independent declarative reference (property text), compared with the implementation
     def check_property(self, case, out):
-        return spec_check(case, out)
+        v = spec_check(case, out)
+        for b_ in out.get("parse", []):
+            v.append(("C07/event-parse", "an event of the input is not handed on unchanged by its reader: %s" % b_))
+        return v
 
 
 def ceil_div(a, b):
